@@ -73,6 +73,14 @@ func init() {
 // ---------------------------------------------------------------- generator
 
 func wireGen(rng *rand.Rand, n int, emit func(string)) {
+	// histories of the TLS files on disk (frps: renewals while it runs; frpc: login attempts while files come and go)
+	// and websocket peers with arbitrary upgrade requests — first: a failing history is shrunk from a short prefix
+	hr := rand.New(rand.NewSource(rng.Int63()))
+	histTail := wireGenHist(hr, n, emit)
+	wireGenLogin(hr, n, emit)
+	wireGenWsRaw(hr, n, emit)
+	histTail()
+	emit("reset")
 	// (a) exhaustive sniff: 256 first bytes x force
 	for f := 0; f < 2; f++ {
 		for b := 0; b < 256; b++ {
@@ -266,6 +274,9 @@ type wirePKI struct {
 	// both CAs loaded for in-memory handshakes, keyed "<ca><d><i>"
 	srvSan map[string][2]string
 	peers  map[string]tls.Certificate
+	// the two CAs themselves (index 0: CA1, 1: CA2): certificates are issued at run time by the history rigs
+	caCert [2]*x509.Certificate
+	caKey  [2]*ecdsa.PrivateKey
 }
 
 var (
@@ -354,6 +365,7 @@ func wireGetPKI() *wirePKI {
 		ca1, k1, p1 := wireMakeCA(dir, "ca1", 1)
 		ca2, k2, p2 := wireMakeCA(dir, "ca2", 2)
 		p.ca1, p.ca2 = p1, p2
+		p.caCert, p.caKey = [2]*x509.Certificate{ca1, ca2}, [2]*ecdsa.PrivateKey{k1, k2}
 		p.srvCert, p.srvKey = wireMakeLeaf(dir, "srv", 10, ca1, k1, true)
 		p.cli1Cert, p.cli1Key = wireMakeLeaf(dir, "cli1", 11, ca1, k1, false)
 		p.cli2Cert, p.cli2Key = wireMakeLeaf(dir, "cli2", 12, ca2, k2, false)
@@ -600,6 +612,26 @@ func wireStartServer(force, ca, cert, mux bool, token string, vhostHTTP int, sco
 // san: "" = no certificate configured (frps makes a random one), else the SAN kind "<d><i>" of a CA1 certificate
 func wireStartServerSan(force, ca bool, san string, mux bool, token string, vhostHTTP int, scopes ...v1.AuthScope) *wireSrv {
 	pki := wireGetPKI()
+	caFile, certFile, keyFile := "", "", ""
+	if ca {
+		caFile = pki.ca1
+	}
+	if san != "" {
+		files, ok := pki.srvSan[san]
+		if !ok {
+			panic("unknown SAN kind " + san)
+		}
+		certFile, keyFile = files[0], files[1]
+	}
+	s, err := wireStartServerFiles(force, caFile, certFile, keyFile, mux, token, vhostHTTP, scopes...)
+	if err != nil {
+		panic(fmt.Sprint("frps did not start: ", err))
+	}
+	return s
+}
+
+// a real frps whose three TLS files are the given paths ("" = not configured)
+func wireStartServerFiles(force bool, caFile, certFile, keyFile string, mux bool, token string, vhostHTTP int, scopes ...v1.AuthScope) (*wireSrv, error) {
 	var lastErr error
 	for try := 0; try < 5; try++ {
 		if try > 0 && vhostHTTP != 0 {
@@ -616,27 +648,22 @@ func wireStartServerSan(force, ca bool, san string, mux bool, token string, vhos
 		scfg.Transport.TLS.Force = force
 		scfg.Transport.TCPMux = &mux
 		scfg.VhostHTTPPort = vhostHTTP
-		if ca {
-			scfg.Transport.TLS.TrustedCaFile = pki.ca1
-		}
-		if san != "" {
-			files, ok := pki.srvSan[san]
-			if !ok {
-				panic("unknown SAN kind " + san)
-			}
-			scfg.Transport.TLS.CertFile, scfg.Transport.TLS.KeyFile = files[0], files[1]
-		}
+		scfg.Transport.TLS.TrustedCaFile = caFile
+		scfg.Transport.TLS.CertFile, scfg.Transport.TLS.KeyFile = certFile, keyFile
 		scfg.Complete()
 		svr, err := server.NewService(scfg)
 		if err != nil {
 			lastErr = err
+			if strings.Contains(err.Error(), "tls") || os.IsNotExist(err) {
+				return nil, err // the TLS files: trying again with other ports does not help
+			}
 			continue
 		}
 		ctx, cancel := context.WithCancel(context.Background())
 		go svr.Run(ctx)
-		return &wireSrv{svr: svr, port: scfg.BindPort, kcpPort: scfg.KCPBindPort, quicPort: scfg.QUICBindPort, stop: cancel}
+		return &wireSrv{svr: svr, port: scfg.BindPort, kcpPort: scfg.KCPBindPort, quicPort: scfg.QUICBindPort, stop: cancel}, nil
 	}
-	panic(fmt.Sprint("frps did not start: ", lastErr))
+	return nil, lastErr
 }
 
 func wireCachedServer(force, ca, cert, mux bool) *wireSrv {
@@ -714,7 +741,12 @@ func wireCert(kv map[string]string) string {
 			return "badsan"
 		}
 	}
-	s := wireCachedServerSan(wireB(kv["force"]), wireB(kv["sca"]), san, true)
+	return wireCertAgainst(wireCachedServerSan(wireB(kv["force"]), wireB(kv["sca"]), san, true), kv)
+}
+
+// one connection attempt of the real connector (client side as the op says) + a Login against frps `s`
+func wireCertAgainst(s *wireSrv, kv map[string]string) string {
+	pki := wireGetPKI()
 	ccfg := &v1.ClientCommonConfig{}
 	ccfg.ServerAddr = "127.0.0.1"
 	if kv["addr"] == "1" {
@@ -1369,7 +1401,26 @@ func wireExec(tok []string) string {
 	case "reset":
 		wireRClose()
 		wcClose()
+		wireHClose()
 		return "-"
+	case "hstart":
+		return wireHStart(wireKV(tok))
+	case "hrepl":
+		return wireHRepl(wireKV(tok))
+	case "hwait":
+		return wireHWait(wireKV(tok))
+	case "hprobe":
+		return wireHProbe(wireKV(tok))
+	case "lstart":
+		return wireLStart(wireKV(tok))
+	case "lfile":
+		return wireLFile(wireKV(tok))
+	case "ltry":
+		return wireLTry(wireKV(tok))
+	case "lsvc":
+		return wireLSvc(wireKV(tok))
+	case "wsraw":
+		return wireWsRaw(wireKV(tok))
 	case "cfgload":
 		return wireCfgLoad(wireKV(tok))
 	case "wstart":
